@@ -23,6 +23,7 @@ type C09Case struct {
 	N      int    `json:"n"`                // operand count / node count / stack requirement
 	Groups int    `json:"groups,omitempty"` // flatten: number of inner operators
 	Shape  int    `json:"shape,omitempty"`
+	Deep   int    `json:"deep,omitempty"` // stack family: what sits at the deepest stack position (0 variable, 1 zero-operand call, 2 unary call, 3 if, 4 constant, 5 two-leaf operator)
 	Mask   int    `json:"mask"`
 	Events int    `json:"events"`
 	Reach  bool   `json:"reach"` // binding reaches the deepest point (else short-circuits early)
@@ -266,8 +267,68 @@ func (c C09Case) tree() *m.Node {
 	case "nodes":
 		return sized(c.Op, c.Inner, c.N)
 	default:
-		return stackShape(c.Shape, c.N)
+		tree := stackShape(c.Shape, c.N)
+		deepen(tree, c.Deep)
+		return tree
 	}
+}
+
+// deepen replaces the leaf that sits at the deepest operand-stack position by another
+// kind of node that also occupies exactly one slot, so the requirement stays the same
+// while the node kind at the high-water mark varies.
+func deepen(tree *m.Node, kind int) {
+	if kind%6 == 0 {
+		return
+	}
+	var best, bestParent *m.Node
+	bestIdx, bestDepth := -1, 0
+	var rec func(n *m.Node, base int)
+	rec = func(n *m.Node, base int) {
+		for i, k := range n.Kids {
+			d := base
+			if n.Kind == m.KOp {
+				d = base + i
+			}
+			if k.IsLeaf() {
+				if d+1 > bestDepth {
+					best, bestParent, bestIdx, bestDepth = k, n, i, d+1
+				}
+			} else {
+				rec(k, d)
+			}
+		}
+	}
+	rec(tree, 0)
+	if best == nil {
+		return
+	}
+	isBool := best.Kind == m.KVar && best.Name[0] == 'p'
+	var repl *m.Node
+	switch kind % 6 {
+	case 1:
+		if isBool {
+			repl = m.Op("c_not", m.Op("c_not", best)) // no zero-operand boolean operator: two unary calls
+		} else {
+			repl = m.Op("c_sum") // zero-operand call: pushes one value without popping any
+		}
+	case 2:
+		repl = m.Op("c_id", best)
+	case 3:
+		repl = m.If(m.Var("p0"), best, best.Clone())
+	case 4:
+		if isBool {
+			repl = m.Const(true)
+		} else {
+			repl = m.Const(int64(1))
+		}
+	default:
+		if isBool {
+			repl = m.Op("=", best, best.Clone())
+		} else {
+			repl = m.Op("+", best, m.Const(int64(0)))
+		}
+	}
+	bestParent.Kids[bestIdx] = repl
 }
 
 func (c C09Case) universe() *Universe {
@@ -307,6 +368,7 @@ func genC09(t *rapid.T) C09Case {
 		c.N = base + rapid.IntRange(-3, 3).Draw(t, "delta")
 	default:
 		c.Kind, c.Shape, c.N = "stack", rapid.IntRange(0, 5).Draw(t, "shape"), rapid.IntRange(1, 24).Draw(t, "need")
+		c.Deep = rapid.IntRange(0, 5).Draw(t, "deep")
 	}
 	return c
 }
@@ -451,9 +513,14 @@ func sweepC09(tier string, shard, shards int, emit func(C09Case)) {
 					if !thorough && ev != (need+mask)%3 {
 						continue
 					}
-					send(C09Case{Kind: "stack", Shape: shape, N: need, Mask: mask, Events: ev, Reach: true})
-					if shape == 1 || shape == 4 {
-						send(C09Case{Kind: "stack", Shape: shape, N: need, Mask: mask, Events: ev, Reach: false})
+					for deep := 0; deep < 6; deep++ {
+						if !thorough && deep != 0 && deep != 1 && deep != (need+shape+mask)%6 {
+							continue
+						}
+						send(C09Case{Kind: "stack", Shape: shape, Deep: deep, N: need, Mask: mask, Events: ev, Reach: true})
+						if shape == 1 || shape == 4 {
+							send(C09Case{Kind: "stack", Shape: shape, Deep: deep, N: need, Mask: mask, Events: ev, Reach: false})
+						}
 					}
 				}
 			}
